@@ -269,13 +269,13 @@ class Main(Suite):
     go_cmd = "c22"
     coq_imports = "From GoGit Require Import Model.Gc."
     quick_n = 160
-    thorough_n = 1500
+    thorough_n = 700
     coq_chunk = 80
     impl_env = {"TMPDIR": "/dev/shm"} if __import__("os").path.isdir("/dev/shm") else None
 
     def gen(self, rng, n, tier):
         cases = []
-        nf = 8 if tier == "quick" else 150
+        nf = 8 if tier == "quick" else 60
         for i in range(n):
             b = pick_weighted(rng, [(4, "mixed"), (2, "loose"), (3, "packed"), (2, "shallow"), (2, "promisor"), (2, "oddmode"), (1, "absent"), (3, "regc"), (2, "collide")])
             c = gen_case(rng, b)
